@@ -4,6 +4,7 @@ import Frugal.Proofs.NormFacts
 import Frugal.Proofs.ClearNocopy2
 import Frugal.Proofs.RoundTripHolder
 import Frugal.Proofs.ReadNormH
+import Frugal.Proofs.BufferLemmas
 import Frugal.Props.Inst.Params
 import Frugal.Props.Inst.F_valid_depth
 import Frugal.Props.Inst.F_skeleton_decoder
@@ -55,6 +56,29 @@ theorem roundtrip (S : Schema) (hS : S.ok = true) (hside : S.rtSide) (sid : Nat)
   simp only [Params.validDepth, Bool.and_eq_true, decide_eq_true_eq] at hv
   have : Generated.params.maxDepth = 1023 := rfl
   omega
+
+/-- `roundtrip` through the public entry points and the caller's memory: `EncodeObject` into any buffer
+    that is long enough (whatever it held, however the encoder cuts its output) succeeds with `n`, and
+    decoding `buf[:n]` gives `normTop v dest` and consumes `n`.  (The buffer model's tie to frugal.go is
+    `C04.code_follows_buffer_model`.) -/
+theorem roundtrip_through_caller_buffer (S : Schema) (hS : S.ok = true) (hside : S.rtSide) (sid : Nat)
+    (xs ds : List Val) (h' : Bytes) (ht : hasTy S (.strct sid) (.st xs []) = true)
+    (hdest : hasTy S (.strct sid) (.st ds h') = true)
+    (hn : noHolderList xs = true) (hf : sizesFitList xs = true)
+    (hr : rtOK S (.strct sid) (.st xs []) = true)
+    (hd : depth (toWire S (.strct sid) (.st xs [])) ≤ 511)
+    (back : Bytes) (chunks : List Bytes)
+    (hch : chunks.flatten = appendM Generated.params S sid (.st xs []))
+    (hfit : chunks.flatten.length ≤ back.length) :
+    (encodeObjectM back back.length chunks).2.1 = true ∧
+    decodeM Generated.params S sid
+        ((encodeObjectM back back.length chunks).2.2.take (encodeObjectM back back.length chunks).1)
+        (.st ds h') =
+      .ok (normTop S sid (.st xs []) (.st ds h'), (encodeObjectM back back.length chunks).1) := by
+  rw [encodeObject_fits back back.length chunks hfit]
+  simp only [List.take_left']
+  rw [hch]
+  exact ⟨trivial, roundtrip S hS hside sid xs ds h' ht hdest hn hf hr hd⟩
 
 /-- **C01 with retained unknown fields** (hypothesis (iv) of `roundtrip` removed at the top level).
     A value `.st xs h` whose holder `h` is the serialisation of well-formed fields `us` that the schema
